@@ -575,12 +575,14 @@ class Node(object):
                 self.number_in_service += 1
         else:
             self.write_interruption_record(individual_to_preempt)
+            individual_to_preempt.exit_date = self.now
+            self.detatch_server(server, individual_to_preempt)
+            individual_to_preempt.exit_date = False
             individual_to_preempt.service_start_date = False
             individual_to_preempt.time_left = individual_to_preempt.service_end_date - self.now
             individual_to_preempt.service_time = self.priority_preempt
             individual_to_preempt.service_end_date = False
             individual_to_preempt.reneging_date = float("Inf")
-            self.detatch_server(server, individual_to_preempt)
             self.decide_class_change(individual_to_preempt)
         self.attach_server(server, next_individual)
         next_individual.service_start_date = self.now
@@ -743,6 +745,9 @@ class Node(object):
             individual.interrupted = True
             self.number_interrupted_individuals += 1
             self.write_interruption_record(individual)
+            if not self.slotted and individual.server is not False:
+                counted_from = max(individual.service_start_date, individual.server.busy_time_counted_until)
+                individual.server.busy_time = self.increment_time(individual.server.busy_time, self.now - counted_from)
             individual.original_service_start_date = individual.service_start_date
             individual.service_start_date = False
             individual.time_left = individual.service_end_date - self.now
